@@ -63,9 +63,9 @@ def write_fixture(root):
 
 # (statement, runtime usage expression or None, allowed placements)
 IMPORT_POOL = [
-    ("import shapes", "shapes.area(shapes.Circle(3))", "tmfyYFIS"),
+    ("import shapes", "shapes.area(shapes.Circle(3))", "tmfyYFISWl"),
     ("import shapes as sh", "sh.Square(2).side", "tmf"),
-    ("from shapes import Circle", "Circle(1).r", "tmfcyYFIENKS"),
+    ("from shapes import Circle", "Circle(1).r", "tmfcyYFIENKSWwLlHhTU"),
     ("from shapes import Circle as C", "C(2).r", "tmfccF"),
     ("from shapes import Square, Circle", "Square(1).side + Circle(1).r", "tmf"),
     ("from shapes import Circle as Ci, Square", "Ci(1).r + Square(2).side", "tmc"),
@@ -75,7 +75,7 @@ IMPORT_POOL = [
     ("import geo.pts as gp", "gp.Point(3, 4).y", "tmS"),
     ("import geo", None, "tm"),
     ("from geo import pts", "pts.Point(5, 6).x", "tmf"),
-    ("from geo.pts import Point", "Point(7, 8).y", "tmfcyYFIENKS"),
+    ("from geo.pts import Point", "Point(7, 8).y", "tmfcyYFIENKSWwLlHhTU"),
     ("from geo.pts import Point as P", "P(9, 1).x", "tmfccY"),
     ("import os", "os.sep", "tmf"),
     ("import os.path", "os.path.basename('a/b')", "tm"),
@@ -86,18 +86,30 @@ IMPORT_POOL = [
     ("import typing", "typing.TYPE_CHECKING", "tm"),
     ("from typing import *", "Optional is not None", "tm"),
     ("from other import Circle", "Circle(4).r", "tmfc"),
-    ("from other import Thing", "Thing(1).v", "tmfcYFENK"),
+    ("from other import Thing", "Thing(1).v", "tmfcYFENKWlhT"),
     ("from other import Thing as Circle", "Circle(1).v", "tfc"),
     ("import other", "other.Thing(2).v", "tmf"),
     ("from mypy_extensions import TypedDict", "TypedDict is not None", "tm"),
     ("import typings", "typings.Payload(1).v", "tmf"),
-    ("from typings import Payload", "Payload(2).v", "tmfcYIENKS"),
+    ("from typings import Payload", "Payload(2).v", "tmfcYIENKSwLHU"),
     ("from typing_helpers import Helper as H", "H(3).v", "tmc"),
     ("import typing_helpers", "typing_helpers.Helper(4).v", "tm"),
     ("import typing_helpers as th", "th.Helper(6).v", "tm"),
     ("import shapes as shp, os", "shp.area(shp.Square(2))", "tm"),
     ("from mypy_extensions_compat import Compat", "Compat(5).v", "tmf"),
 ]
+
+# bodies of module-level compound statements other than def / class / if / try-body (multi-line blocks and one-line suites)
+BLOCK_SHAPES = {
+    "W": "with memoryview(b''):\n    {st}",
+    "w": "with memoryview(b''): {st}",
+    "L": "for _i in range(1):\n    {st}",
+    "l": "for _i in range(1): {st}",
+    "H": "while True:\n    {st}\n    break",
+    "h": "while True: {st}; break",
+    "T": "try:\n    pass\nexcept ImportError:\n    pass\nelse:\n    {st}",
+    "U": "try:\n    pass\nfinally:\n    {st}",
+}
 
 # relative imports: only for targets generated inside the package PKG
 REL_POOL = [
@@ -220,6 +232,10 @@ def gen_source(rnd, fx, directed=None, funcs=None, minimal=False, package=False)
             usages.append(f"_h{n}()")
         elif place == "c":
             tc_block.append(st)
+        elif place in BLOCK_SHAPES:     # run-time import inside a module-level with / for / while / try-else / try-finally
+            mid.append(BLOCK_SHAPES[place].format(st=st))
+            if use:
+                usages.append(use)
         elif place == "N":      # a TYPE_CHECKING block local to a function body
             helpers.append(f"def _h{n}():\n    if TYPE_CHECKING:\n        {st}\n    return {n}\n")
             usages.append(f"_h{n}()")
